@@ -402,7 +402,7 @@ impl Gen<'_> {
             None
         };
         let hqn = hq.as_ref().map(|q| q.vote.n);
-        let groups: Vec<(ATVote, Vec<usize>)> = match shape % 4 {
+        let groups: Vec<(ATVote, Vec<usize>)> = match shape % 5 {
             // everybody reports the same high vote above the certificate: forced re-proposal
             0 => {
                 let hv = Some(avote(view, hqn.map_or(0, |x| x + 1), 2));
@@ -424,7 +424,18 @@ impl Gen<'_> {
                 gs
             }
             // nobody voted
-            _ => vec![(ATVote { view: aview(view), hv: None, hq }, signers)],
+            3 => vec![(ATVote { view: aview(view), hv: None, hq }, signers)],
+            // the same block reported through votes cast in different views (a re-proposed block): one candidate
+            _ => {
+                let k = signers.len() / 2;
+                let (a, b) = signers.split_at(k.max(1).min(signers.len()));
+                let blk = hqn.map_or(0, |x| x + 1);
+                let mut gs = vec![(ATVote { view: aview(view), hv: Some(avote(view, blk, 2)), hq: hq.clone() }, a.to_vec())];
+                if !b.is_empty() {
+                    gs.push((ATVote { view: aview(view), hv: Some(avote(view.saturating_sub(1), blk, 2)), hq }, b.to_vec()));
+                }
+                gs
+            }
         };
         atqc(n, aview(view), &groups)
     }
@@ -435,7 +446,7 @@ impl Gen<'_> {
             let h = self.rng.gen_range(1..4);
             AJust::Commit(self.valid_cqc(prev, base_n, h))
         } else {
-            let shape = self.rng.gen_range(0..4);
+            let shape = self.rng.gen_range(0..5);
             AJust::Timeout(self.tqc_for(prev, base_n, shape))
         }
     }
@@ -468,7 +479,15 @@ impl ReplicaProp {
             out.emit(op, obs);
             self.last_notify = None;
             let mut fresh = 100u64;
+            // the last proposal the replica voted on (for the equivocating-leader-around-a-crash family)
+            let mut last_voted_proposal: Option<Value> = None;
+            let mut pending: std::collections::VecDeque<Value> = Default::default();
             for _ in 0..steps {
+                if let Some(op) = pending.pop_front() {
+                    let (op, obs) = self.exec_full(&op, out);
+                    out.emit(op, obs);
+                    continue;
+                }
                 let snap = self.s.as_ref().unwrap().rig.snapshot();
                 let cur = snap.view.0;
                 let base_n = snap.high_commit_qc.as_ref().map_or(first, |q| q.header().number.0 + 1);
@@ -556,6 +575,24 @@ impl ReplicaProp {
                     }
                 };
                 let (op, obs) = self.exec_full(&op, out);
+                if op["op"] == "msg" && op["msg"].get("proposal").is_some() && (obs["class"] == "accepted" || obs["class"] == "crashed") {
+                    last_voted_proposal = Some(op.clone());
+                    // equivocating leader around a crash: after the replica voted (or crashed while voting), restart it
+                    // and deliver a DIFFERENT proposal for the same view (same justification, other payload)
+                    if self.mode == Mode::Crash && rng.gen_bool(0.6) {
+                        if let Some(mut p2) = last_voted_proposal.clone() {
+                            if p2["msg"]["proposal"]["payload"].is_u64() {
+                                fresh += 2;
+                                if !payload_ok(fresh) { fresh += 1; }
+                                p2["msg"]["proposal"]["payload"] = json!(fresh);
+                                p2["crash"] = Value::Null;
+                                p2["sig_ok"] = json!(true);
+                                if rng.gen_bool(0.8) { pending.push_back(json!({"op":"restart"})); }
+                                pending.push_back(p2);
+                            }
+                        }
+                    }
+                }
                 out.emit(op, obs);
             }
         }
